@@ -63,7 +63,7 @@ def np_stub(n):
     return Obj("np", methods=dict(sqrt=_sqrt, sum=_sum, abs=_abs, dot=_dot))
 
 
-def armijo_contract(n):
+def armijo_contract(n, prop="C11"):
     """_is_doing_for_alpha(x, y, alpha, gamma, loss) == ( F(x + alpha y) > F(x) + gamma alpha <y, G(x)> )"""
     F, G, P, inC = funs(n)
 
@@ -138,12 +138,12 @@ def armijo_contract(n):
                     Gx=[rng.uniform(-2, 2) for _ in range(n)])
     c = Contract(PG + ":ProjectedGradientDescentBacktracking._is_doing_for_alpha", make_inputs, post, globals_=dict(np=np_stub(n)), canary=canary,
                  concretize=concretize, native_call=native_call, native_check=native_check,
-                 prop="C11", scope=f"all losses, all x, y, alpha, gamma (vector length {n})",
+                 prop=prop, scope=f"all losses, all x, y, alpha, gamma (vector length {n})",
                  clause_text={"armijo-test": "continue halving iff loss(x + alpha y) > loss(x) + gamma alpha <y, grad loss(x)>"})
     c.canary_native = canary_native
     return c
     return Contract(PG + ":ProjectedGradientDescentBacktracking._is_doing_for_alpha", make_inputs, post, globals_=dict(np=np_stub(n)),
-                    prop="C11", scope=f"all losses, all x, y, alpha, gamma (vector length {n})",
+                    prop=prop, scope=f"all losses, all x, y, alpha, gamma (vector length {n})",
                     clause_text={"armijo-test": "continue halving iff loss(x + alpha y) > loss(x) + gamma alpha <y, grad loss(x)>"})
 
 
